@@ -145,21 +145,25 @@ def restore (failMp : Mp → Bool) : List (Mp × Rec) → St → Out
 def finishInit (buggy : Bool) (s : St) (r : Resp) (calls : List Call) : Out :=
   ⟨{ s with status := if buggy || s.curFs.isSome then .ready else s.status, lastInit := some r }, r, calls⟩
 
+/-- `Init` after `json.Unmarshal` succeeded: `fm.config = config` (status is WaitInit). -/
+def St.withCfg (s : St) (cfg : Cfg) : St := { s with status := .waitInit, cfg := some cfg }
+
+/-- `Init` after `service.NewFileSystem` succeeded: `fm.curFs = fs`, a fresh instance. -/
+def St.installed (s : St) (cfg : Cfg) : St :=
+  { s with status := .waitInit, cfg := some cfg, curFs := some s.nextFs, nextFs := s.nextFs + 1,
+           fsCfg := ains s.nextFs cfg s.fsCfg }
+
 /-- `Server.Init`. -/
-def initWith (buggy : Bool) (s0 : St) (cfg : Cfg) (stage : Stage) (failMp : Mp → Bool) : Out :=
-  let s := { s0 with status := .waitInit }
+def initWith (buggy : Bool) (s : St) (cfg : Cfg) (stage : Stage) (failMp : Mp → Bool) : Out :=
   match stage with
-  | .parse => finishInit buggy s .err []                                       -- fm.config untouched
-  | .cfgfunc => finishInit buggy { s with cfg := some cfg } .err [.cfgFunc cfg false]
-  | .construct =>
-    finishInit buggy { s with cfg := some cfg } .err [.cfgFunc cfg true, .newFsFail cfg]
+  | .parse => finishInit buggy { s with status := .waitInit } .err []         -- fm.config untouched
+  | .cfgfunc => finishInit buggy (s.withCfg cfg) .err [.cfgFunc cfg false]
+  | .construct => finishInit buggy (s.withCfg cfg) .err [.cfgFunc cfg true, .newFsFail cfg]
   | .ok =>
-    let f := s.nextFs
-    let s1 := { s with cfg := some cfg, curFs := some f, nextFs := f + 1, fsCfg := ains f cfg s.fsCfg }
-    let pre := [Call.cfgFunc cfg true, Call.newFs f cfg]
-    if s1.closed then finishInit buggy s1 .err pre                             -- ms.View: database not open
+    let pre := [Call.cfgFunc cfg true, Call.newFs s.nextFs cfg]
+    if s.closed then finishInit buggy (s.installed cfg) .err pre               -- ms.View: database not open
     else
-      let o := restore failMp s1.store s1
+      let o := restore failMp s.store (s.installed cfg)
       finishInit buggy o.st o.resp (pre ++ o.calls)
 
 def init := initWith false
